@@ -825,6 +825,8 @@ def adapt_typehints(
         if serialize:
             if isinstance(val, typehint):
                 val = val.name
+            elif isinstance(val, Enum):
+                raise_unexpected_value(f"Expected a member of {typehint}", val)  # e.g. member of another Union subtype
         elif not isinstance(val, typehint):
             try:
                 val = typehint[val]
